@@ -1,6 +1,7 @@
 """C18 - the App Engine proxy routes to the most specific live backend."""
 import collections
 
+from lib import appeng as A
 from lib import common as C
 from lib.driver import Prop
 
@@ -8,18 +9,18 @@ from lib.driver import Prop
 class C18(Prop):
     pid = "C18"
     props_file = "Props/C18.v"
-    model_targets = ["theories/App/Route.vo"]
+    model_targets = ["theories/App/Route.vo", "theories/App/AppCheck.vo"]
     technique = "Coq proof of longest-prefix selection (invariant over the iteration) and of the per-user lookup + regenerated liveness constants + differential run of mostSpecificMatchingBackend against the extracted model"
     level_text = ("C18_longest / C18_longest_backend / C18_no_match prove, for every path and every list of backends with arbitrary prefix lists, that the modelled selection returns a backend owning a "
                   "matching prefix of maximal length (the first such in iteration order) and fails iff nothing matches; C18_lookup / C18_lookup_complete prove own-backends-first, shared fallback only without an own match, "
-                  "and liveness strictly inside the window. The real mostSpecificMatchingBackend is run on bounded-exhaustive and random backend sets and must equal the model exactly.")
+                  "and liveness strictly inside the window. The real mostSpecificMatchingBackend is run on bounded-exhaustive and random backend sets and must equal the model exactly; the real app (LookupBackend, hasBackend, 404) is run on a routing matrix with trackers aged across the window and on random histories and must agree with App/AppModel.v (which calls Route.lookup) step by step.")
     level_note = ("Trusted: Coq kernel, srcfacts (backendTimeout, sharedBackendUser), the harness. Modelled, not verified: strings.HasPrefix (= Coq String.prefix), the datastore query that "
                   "yields the per-user backend list and its key order (ties between equally long prefixes are a declared don't-care of the property oracle), time.Since. "
                   "Backend IDs are non-empty (enforced by parseBackend).")
     assumptions = [
         "strings.HasPrefix is modelled by Coq's String.prefix; len by String.length (byte strings)",
         "backend IDs are non-empty (parseBackend rejects empty IDs); the datastore filter EndUser= returns exactly the user's backends in key order",
-        "LookupBackend/hasBackend are tied to the model by the App Engine harness of C17/C19 when built; this check drives mostSpecificMatchingBackend directly",
+        "LookupBackend/hasBackend/proxyHandler are tied to the model by the App Engine harness (real app binary against a fake datastore, trackers aged to 2 s .. 2 h around the window); mostSpecificMatchingBackend is also driven directly",
     ]
     OVERLAY = {"app/store/zz_verif_common_test.go": "app_store/verif_common_test.go",
                "app/store/zz_verif_c18_test.go": "app_store/verif_c18_test.go"}
@@ -29,7 +30,8 @@ class C18(Prop):
         rows = C.read_jsonl(p)
         if rc != 0 or not rows:
             raise RuntimeError("C18 harness did not run: rc=%s\n%s" % (rc, out[-2000:]))
-        return {"direct": rows}
+        app = A.run(ctx, 40 if ctx.thorough else 6, 45, with_timeout=False, name="ae18.jsonl", faultp=0.0, bigp=0.0)
+        return {"direct": rows, "histories": app["histories"]}
 
     @staticmethod
     def _best(r):
@@ -46,6 +48,8 @@ class C18(Prop):
 
     def oracle(self, ctx, obs):
         res = []
+        for h in obs["histories"]:
+            res += A.oracle_c18(h)
         for r in obs["direct"]:
             best, owners = self._best(r)
             rp = {"call": "store.mostSpecificMatchingBackend", "path": r["path"], "backends": r["backends"], "observed": r["result"],
@@ -87,7 +91,9 @@ class C18(Prop):
                 r = part[i]
                 mism.append(("Route.most_specific", "implementation returned %r where the model computes otherwise" % (r["result"],), {"path": r["path"], "backends": r["backends"], "observed": r["result"]}))
             total += len(part)
-        return mism, total, {"coqc_s": round(dt_all, 2), "cases": total}
+        # LookupBackend + hasBackend + proxyHandler's 404, through the real app against the fake datastore
+        m2, n2, info2 = A.model_check(ctx, obs["histories"], name="cases_app18")
+        return mism + m2, total + n2, {"coqc_s": round(dt_all, 2), "cases": total, "app_histories": info2}
 
     def coverage(self, ctx, obs):
         rows = obs["direct"]
